@@ -222,6 +222,9 @@ pub fn check_shape<D: Digest>(
     ctx.cover_max("worst_rank_quantile_error_over_tolerance", worst);
 }
 
+pub const RANGE_EXCEEDS_F64: &str = "magnitude-above-1e300";
+pub const SINGLETON_NOT_EXTREME: &str = "singleton-extreme-centroid-inside-(min,max)";
+
 fn check_all(ctx: &mut Ctx, d: &mut TDigestMut, expect_total: Option<u64>, mm: Option<(f64, f64)>, class: &str, what: &str, nq: usize) {
     let cent = match centroids_of(d) {
         Ok(c) => c,
@@ -230,6 +233,22 @@ fn check_all(ctx: &mut Ctx, d: &mut TDigestMut, expect_total: Option<u64>, mm: O
             return;
         }
     };
+    // A state only reachable from a foreign image (heavy extreme centroid, true extreme outside its mean)
+    // followed by an update or merge that puts a single sample between that extreme and the centroid:
+    // it gets its own class label so that what is known about it stays separate from everything else.
+    let nc = cent.centroids.len();
+    let odd = nc >= 2
+        && ((cent.centroids[0].1 == 1 && cent.min < cent.centroids[0].0) || (cent.centroids[nc - 1].1 == 1 && cent.max > cent.centroids[nc - 1].0));
+    // values whose differences overflow f64 (both signs near f64::MAX): labelled, see known_findings.json
+    // (magnitudes above 1e300: products of a value with a cluster weight, or differences of two values, leave f64)
+    let overflowing = nc >= 1 && cent.max.abs().max(cent.min.abs()) > 1e300;
+    let class = if overflowing { RANGE_EXCEEDS_F64 } else if odd { SINGLETON_NOT_EXTREME } else { class };
+    if overflowing {
+        ctx.cover("state_range_exceeds_f64");
+    }
+    if odd {
+        ctx.cover("state_singleton_extreme_not_at_extreme");
+    }
     check_shape(ctx, d, &cent, expect_total, mm, class, what, nq);
     let mut frozen = d.clone().freeze();
     check_shape(ctx, &mut frozen, &cent, expect_total, mm, class, what, nq);
@@ -287,11 +306,28 @@ fn history_case(ctx: &mut Ctx, case: &Json) {
                     let shape2 = *rng.pick(&SHAPES[..15]);
                     let n2 = *rng.pick(&[0usize, 1, 2, 50, 2000]);
                     let mut other = TDigestMut::new(k2);
-                    for v2 in gen_values(&mut rng, shape2, n2) {
-                        other.update(v2);
-                        offered += 1;
-                        mn = mn.min(v2);
-                        mx = mx.max(v2);
+                    let mut foreign = false;
+                    if rng.chance(0.3) {
+                        // the partner is a digest read from a foreign image whose extremes lie outside its
+                        // centroid means (heavy first/last centroid)
+                        let class = *rng.pick(&["heavy-first", "heavy-last", "min<first-mean,max>last-mean"]);
+                        let im = synth_image(&mut rng, class, k2);
+                        if let Ok(o) = TDigestMut::deserialize(&spec::encode_native(&im, false), false) {
+                            other = o;
+                            foreign = true;
+                            offered += im.total_weight();
+                            mn = mn.min(im.min);
+                            mx = mx.max(im.max);
+                            ctx.cover("op_merge_deserialized_partner");
+                        }
+                    }
+                    if !foreign {
+                        for v2 in gen_values(&mut rng, shape2, n2) {
+                            other.update(v2);
+                            offered += 1;
+                            mn = mn.min(v2);
+                            mx = mx.max(v2);
+                        }
                     }
                     d.merge(&other);
                     ctx.cover("op_merge");
@@ -441,6 +477,32 @@ fn image_case(ctx: &mut Ctx, case: &Json) {
         Ok(mut d) => {
             let total = im.total_weight();
             check_all(ctx, &mut d, Some(total), Some((emin, emax)), &class, &what, nq);
+            // the deserialized digest keeps living: updates inside and outside its range, then a merge
+            let (mut mn, mut mx, mut tot) = (emin, emax, total);
+            for j in 0..rng.usize(1, 12) {
+                let v = match rng.below(4) {
+                    0 => emin - rng.f64() * 5.0,
+                    1 => emax + rng.f64() * 5.0,
+                    _ => emin + rng.f64() * (emax - emin),
+                };
+                d.update(v);
+                mn = mn.min(v);
+                mx = mx.max(v);
+                tot += 1;
+                if j % 4 == 0 {
+                    check_all(ctx, &mut d, Some(tot), Some((mn, mx)), &class, &format!("{} + {} updates", what, j + 1), nq);
+                }
+            }
+            let mut fresh = TDigestMut::new(k);
+            for _ in 0..rng.usize(0, 40) {
+                let v = rng.normal() * 50.0;
+                fresh.update(v);
+                mn = mn.min(v);
+                mx = mx.max(v);
+                tot += 1;
+            }
+            fresh.merge(&d);
+            check_all(ctx, &mut fresh, Some(tot), Some((mn, mx)), &class, &format!("{} + updates, merged into a fresh digest", what), nq);
             ctx.cover(&format!("image_class_{}", class));
             ctx.cover(&format!("image_encoding_{}", encoding));
         }
